@@ -82,10 +82,16 @@ func (o Obs) String() string {
 }
 
 func cutTrace(msg string) string {
-	if i := strings.Index(msg, "=== Stacktrace"); i >= 0 {
-		msg = msg[:i]
+	// the VM appends "\n===== Stacktrace =====\n<frames>" to fatal messages
+	if i := strings.Index(msg, " Stacktrace "); i >= 0 {
+		if j := strings.LastIndex(msg[:i], "\n"); j >= 0 {
+			rest := msg[j+1 : i]
+			if strings.Trim(rest, "=") == "" {
+				return msg[:j]
+			}
+		}
 	}
-	return strings.TrimRight(msg, "\n ")
+	return msg
 }
 
 // ---------------------------------------------------------------- context
